@@ -44,12 +44,19 @@ def policy_scenarios(engine, rng, n):
     out = []
     for i in range(n):
         N, T = rng.choice(PAIRS)
-        nrec = rng.randint(3, 8)
+        nrec = rng.randint(3, 9)
         pattern = [rng.random() < rng.choice([0.2, 0.4, 0.6]) for _ in range(nrec)]
         tags = ["s1#%d" % (k + 1) for k in range(nrec)]
         by_proc = rng.random() < 0.3
         outcomes = {t: "verif: rejected" for t, p in zip(tags, pattern) if p and not by_proc}
-        procs = [dpgen.proc("p1", "pipeline", 1, {t: "error" for t, p in zip(tags, pattern) if p})] if by_proc else []
+        presults = {t: "error" for t, p in zip(tags, pattern) if p} if by_proc else {}
+        if rng.random() < 0.5:
+            # filtered records are acknowledged to the source: they count as positive outcomes in the window
+            fp = rng.choice([0.3, 0.6, 0.9])
+            for t, p in zip(tags, pattern):
+                if not p and rng.random() < fp:
+                    presults[t] = "filter"
+        procs = [dpgen.proc("p1", "pipeline", 1, presults)] if presults else []
         left, batches = nrec, []
         while left > 0:
             b = min(left, rng.choice([1, 1, 2, 3, 4]))
@@ -112,7 +119,8 @@ def run(tier, seed):
                "scenario": v["scen"], "at": v["at"]}
         i = next(k for k, s in enumerate(wscs) if s["id"] == v["scen"])
         chk.verdict.add(rec, lambda i=i, rec=rec: vlib.write_replay(PROP, wscs[i]["id"], wscs[i], wtraces[i][:400], rec))
-    c01.standard_families(chk, tier, seed, rng, nrand_quick=40, nrand_thorough=1500, explore=not quick)
+    c01.standard_families(chk, tier, seed, rng, nrand_quick=40, nrand_thorough=1500, explore=not quick,
+                          focus=("dlq", "force-at-dlq", "stop-at-dlq"))
     n = 80 if quick else 2500
     chk.run(policy_scenarios("v1", rng, n) + policy_scenarios("v2", rng, n), name="policy")
     chk.run(fault_scenarios("v1", rng, n // 2) + fault_scenarios("v2", rng, n // 2), name="dlqfault")
